@@ -297,8 +297,9 @@ def n1(ck: Check) -> None:
                     continue
                 why = "generator over a set consumed in order"
             elif isinstance(node, ast.DictComp):
-                ck.ob("N1", fm, stmt, True, "dict comprehension: only insertion order depends on the set", key=key)
-                continue
+                # the insertion order of the dictionary is the order of the set: it matters as soon as the dictionary is
+                # iterated (here or by whoever receives it)
+                pass
             elif sk == "int":
                 ck.ob("N1", fm, stmt, True, "set of ints: order does not depend on the hash seed", key=key)
                 continue
